@@ -108,7 +108,7 @@ def obligations():
     base = Obligation("C04.feasible.b", _ob(4), kind="bounded", functions=fs, max_paths=400000, timeout_ms=30000,
                       bound="monotone profiles of 3..4 rows, 1..2 utilities per side with levels on rows, temperatures and enthalpies symbolic", doc="FEASIBLE, MAXIMAL")
     obs = split(base, hot_side=[True, False], rows=[3, 4], utilities=[1, 2])
-    big = Obligation("C04.feasible5.b", _ob(5), kind="bounded", tier="thorough", functions=fs, max_paths=4000000, timeout_ms=60000, time_budget_s=7200,
+    big = Obligation("C04.feasible5.b", _ob(5), kind="bounded", tier="thorough", functions=fs, max_paths=4000000, timeout_ms=60000, time_budget_s=3000,
                      bound="profiles of 5 rows, 1..2 utilities per side")
     obs += split(big, hot_side=[True, False], rows=[5], utilities=[1, 2])
     # the assignment works on the load profiles derived from the POCKET-FREE curve: its contracts (C07: envelope, breakpoints, split into
